@@ -121,7 +121,7 @@ def handle : Handler := fun op inp impl => do
     let ok := inv s
     let holds := if ok then
       [("C17.i", clauseI s t), ("C17.i0", clauseI0 s t), ("C17.ii", clauseII s t), ("C17.iiup", clauseIIup s t),
-       ("C17.iii", clauseIII s t), ("C17.ivbudget", clauseIVbudget s t), ("C17.iv", clauseIV s t),
+       ("C17.iii", clauseIII s t), ("C17.ivbudget", clauseIVbudget s t), ("C17.ivspent", clauseIVspent s t), ("C17.iv", clauseIV s t),
        ("C17.inv", inv t)]
       else []
     return { model := ← resultJ s r, holds := holds, tags := tags }
